@@ -1,4 +1,16 @@
+//! h_ckpt — engine checkpoint harnesses: C19 (checkpoint/restore invisible in the output) and
+//! C20 (checkpoints survive serialisation unchanged). See DESIGN.md §3 and README-harness.md.
+
+mod c19;
+mod c20;
+mod common;
+
 fn main() {
     let args = mc::parse_args();
-    mc::machinery_error(&format!("{} is not built yet", args.prop));
+    mc::quiet_panics();
+    match args.prop.as_str() {
+        "C19" => c19::run(&args),
+        "C20" => c20::run(&args),
+        other => mc::machinery_error(&format!("h_ckpt serves C19 and C20, not {other}")),
+    }
 }
